@@ -55,6 +55,19 @@ type TField struct {
 	Query   string // api.query source name ("" = none)
 }
 
+// jsConvType: the types the api.js_conv value mapping renders as strings (integers, doubles, strings and lists of them).
+func jsConvType(t *TType) bool {
+	switch t.Kind {
+	case tBYTE, tI16, tI32, tI64, tDOUBLE:
+		return true
+	case tSTRING:
+		return !t.Binary
+	case tLIST:
+		return t.Elem.Kind != tLIST && jsConvType(t.Elem)
+	}
+	return false
+}
+
 func (f *TField) Key() string {
 	if f.Alias != "" {
 		return f.Alias
@@ -427,7 +440,7 @@ func (g *tgen) newStruct(depth int) *TStruct {
 				f.Anno = " (api.key = " + idlQuote(f.Alias) + ")"
 			}
 		}
-		if g.o.JSConv && f.Anno == "" && (f.T.Kind == tI64 || f.T.Kind == tI32 || f.T.Kind == tI16) && g.t.Chance(1, 4, "field.jsconv") {
+		if g.o.JSConv && f.Anno == "" && jsConvType(f.T) && g.t.Chance(1, 4, "field.jsconv") {
 			f.JSConv = true
 			f.Anno = ` (api.js_conv = "true")`
 		}
